@@ -17,6 +17,20 @@ PURE_RULE = ("; `gkh pure` calls the side-effect-free functions of package def (
              "call with its transcription in Gk/Basic.lean and Gk/Query.lean (DIFF tag pure)")
 
 
+GOLEAN_RULE = ("; `gkh golean` re-translates the decision logic of package def, internal/sortable_task, the whole "
+               "MutationHookTimer (repository/mution_hook_timer.go) and the mutator decoders from the CURRENT "
+               "Go sources into Lean (lean/Gk/Gen/*.lean, go/ast, no skipping: an unsupported construct is a broken tie, DIFF "
+               "golean) before the audit, and the tie theorems (kind `tie`, Gk/Props/Tie*.lean) prove for all inputs that "
+               "each generated definition equals the hand-written model definition the property theorems are about")
+GOLEAN_TB = ["the Go-to-Lean translator harness/cmd/gkh/golean.go (go/ast, ~900 lines) and the runtime vocabulary "
+             "lean/Gk/GoRt.lean, which states the assumed behaviour of und/option, time.Time comparison / Truncate, strings, "
+             "maps and slices; Go `int` is modelled as an unbounded integer (the translated functions only compare)"]
+
+
+def golean_run():
+    return {"args": ["golean"]}
+
+
 def pure_run(tier):
     return {"args": ["pure", "-n", PURE_N[tier], "-len", "60"], "seed_off": 7}
 
@@ -260,12 +274,13 @@ CHECKS = {
         ("C20", "PARTIAL: inherits C03's open finding D3i; faults on every scheduler call incl. hook re-arming. Safety for every script; recovery: one fair fault-free Retry round resolves every retryable state and leaves no task dispatched-and-never-started (C20_recovery_eventual), under the driver discipline 'a retryable DispatchErr is answered with Retry'."),
     )},
     "C10": {
-        "family": "lin", "level": "proof", "modules": ["Gk.Props.C10"], "components": ["lin", "srcfacts-lock", "srcfacts-sql"],
+        "family": "lin", "level": "proof", "modules": ["Gk.Props.C10"], "components": ["lin", "srcfacts-lock", "srcfacts-sql", "entproto"],
         "runs": lambda tier: {
             "quick": [{"args": ["lin", "-impl", "mem", "-n", "3000", "-g", "4", "-k", "2"]},
                       {"args": ["lin", "-impl", "mem", "-n", "1500", "-g", "3", "-k", "3"], "seed_off": 1},
                       {"args": ["lin", "-impl", "entfile", "-n", "150", "-g", "3", "-k", "2"]},
                       {"args": ["lin", "-impl", "mem", "-n", "600", "-g", "4", "-k", "2"], "race": True, "seed_off": 2},
+                      {"args": ["entproto", "-n", "2000", "-len", "40"], "seed_off": 3},
                       {"args": ["srcfacts", "-facts", "lock,sql"]}],
             "thorough": [{"args": ["lin", "-impl", "mem", "-n", "60000", "-g", "4", "-k", "2", "-procs", str(p)], "seed_off": p}
                          for p in (2, 4, 16)] +
@@ -273,8 +288,11 @@ CHECKS = {
                          {"args": ["lin", "-impl", "entfile", "-n", "3000", "-g", "4", "-k", "2"]},
                          {"args": ["lin", "-impl", "mem", "-n", "6000", "-g", "4", "-k", "2"], "race": True, "seed_off": 9},
                          {"args": ["lin", "-impl", "entfile", "-n", "300", "-g", "3", "-k", "2"], "race": True, "seed_off": 10},
+                         {"args": ["entproto", "-n", "150000", "-len", "50"], "seed_off": 11},
+                         {"args": ["entproto", "-n", "50000", "-len", "30", "-clients", "4"], "seed_off": 12},
                          {"args": ["srcfacts", "-facts", "lock,sql"]}],
-            "widen": [{"args": ["lin", "-impl", "mem", "-n", "30000", "-g", "4", "-k", "2"]}],
+            "widen": [{"args": ["lin", "-impl", "mem", "-n", "30000", "-g", "4", "-k", "2"]},
+                      {"args": ["entproto", "-n", "20000", "-len", "40"], "seed_off": 13}],
         }[tier],
         "rule": "real goroutines behind a barrier issue add / cancel / dispatch / update / done / get / next / find on "
                 "two shared tasks (all sort keys tied, fixed clock) of the in-memory and the file-backed ent/SQLite "
@@ -284,13 +302,23 @@ CHECKS = {
                 "`gkh srcfacts -facts lock` re-extracts from the current sources (go/ast) that every method of "
                 "InMemoryRepository, CronStore, volatileTaskRepo and MutationHookTimer takes the exclusive mutex with a "
                 "deferred unlock before its first access to a protected field (the hypothesis of C10_atomic_sections), and "
-                "(sql) that every ent mutation is one UPDATE whose lifecycle guard is in its WHERE clause",
+                "(sql) that every ent mutation is one UPDATE whose lifecycle guard is in its WHERE clause; "
+                "`gkh entproto`: 2..4 clients call the real EntRepository (file-backed SQLite) through a gating database/sql "
+                "driver that parks a call before its first statement and, after a conditional UPDATE that matched no row "
+                "(when ent's transaction around it has ended), before the classifying GetById; the harness executes random "
+                "action lists of the model Gk.Ent (call / stmt / cls / ret per client; ids only become known to clients when "
+                "their AddTask has returned), so other clients' statements land between the two statements of a call "
+                "deterministically; hit or miss of every first statement, result or retry (MarkAsDone's loop) of every "
+                "classification, every returned result and the final database are compared with Gk.Ent.step (DIFF entproto) and "
+                "the implementation's own history is decided by Gk.Lin.linearizable (Mon C10); these runs are shrunk and replayable",
         "trusted_base": COMMON_TB + ["that the Go code holds r.mu where the model assumes one atomic step, and that SQLite "
                                      "executes each conditional UPDATE atomically, is sampled by these runs, not proved"],
         "assumptions": ["histories are observations of real concurrent runs (not shrunk, a replay re-checks the recorded "
                         "observation)", "for the SQL repository members of a full tie may be returned in any order"],
-        "claim": "PARTIAL: the theorems are about the checker (sound and complete w.r.t. the definition) and the atomic-"
-                 "section argument; the mapping of Go critical sections / SQL statements to atomic steps is sampled.",
+        "claim": "PARTIAL: the theorems are about the checker (sound and complete w.r.t. the definition), the atomic-"
+                 "section argument (in-memory) and the two-statement protocol of the SQL repository (C10ent_linearizable: every "
+                 "interleaving of statements, any number of clients); the mapping of Go critical sections to atomic steps and "
+                 "the atomicity of one SQLite statement / write transaction are sampled.",
     },
     "C19": {
         "family": "repo", "level": "proof", "modules": ["Gk.Props.C19"], "components": ["repo", "cron", "heap", "snapshot", "memspec", "next", "find", "srcfacts-clone"],
@@ -330,3 +358,16 @@ CHECKS = {
 
 for _pid in ("C11", "C07"):
     CHECKS[_pid]["rule"] += PURE_RULE
+
+
+# ---- properties whose decision logic is also tied by translation (gkh golean + tie theorems)
+def _with_golean(cfg):
+    runs = cfg["runs"]
+    cfg["runs"] = lambda tier, _r=runs: _r(tier) + [golean_run()]
+    cfg["components"] = cfg["components"] + ["golean"]
+    cfg["rule"] = cfg["rule"] + GOLEAN_RULE
+    cfg["trusted_base"] = cfg["trusted_base"] + GOLEAN_TB
+
+
+for _p in ("C01", "C02", "C05", "C07", "C11", "C12", "C14", "C18"):
+    _with_golean(CHECKS[_p])
